@@ -18,7 +18,7 @@ def shape_cached_descent_spends_depth : Bool := true
 def shape_checkloop_before_ns_lookup : Bool := true
 def shape_delegation_spends_depth : Bool := true
 def shape_dialudp_only_from_exchange : Bool := true
-def shape_dname_depth_guard : Bool := false
+def shape_dname_depth_guard : Bool := true
 def shape_exchange_debit_dominates_dial : Bool := true
 def shape_exchange_guard_dominates_dial : Bool := true
 def shape_level_up_only_when_minimized : Bool := true
